@@ -102,9 +102,14 @@ def run(c: Check):
     bad = c.corr_shards("corr", HEADER, coq_cases,
                         lambda k: identgen.g_icase(k["export"], k["ops"], k["answers"]), "check_case", shard=60)
     SHEADER = ("From Coq Require Import ZArith NArith List Bool.\n"
-               "From XV Require Import core.Value model.Hash model.Ser corr.SerCorr.\nImport ListNotations.\n")
+               "From XV Require Import core.Value model.Hash model.Ser model.Deep corr.SerCorr.\nImport ListNotations.\n")
     bad2 = c.corr_shards("domain", SHEADER, dom_cases,
                          lambda k: identgen.g_scase(k["export"], k["node"], k["expect"]), "check_scase", shard=60)
+    # the deep signature (nested configurations unfolded) of the same configurations: hypotheses of C03_deep_injective
+    bad3 = c.corr_shards("deep", SHEADER, dom_cases,
+                         lambda k: identgen.g_scase(k["export"], k["node"], k["expect"]), "check_deep", shard=60)
+    c.extra["deep_disagreeing"] = [dict(desc=dom_cases[i]["desc"], node=dom_cases[i]["node"],
+                                        expect_wf=dom_cases[i]["expect"]) for i in bad3[:5]]
     c.extra["domain_cases"] = len(dom_cases)
     c.extra["domain_disagreeing"] = [dict(desc=dom_cases[i]["desc"], node=dom_cases[i]["node"],
                                           expect_wf=dom_cases[i]["expect"]) for i in bad2[:5]]
